@@ -192,15 +192,15 @@ def extract_range(ctx, F):
         for a in alts:
             def start_minus_1(k):
                 k = k[1] if (k[0] == 'field' and k[2] == '0') else k
+                if is_call(k, 'usize::checked_sub') and k[2][0] == ('param', 'start') and k[2][1] == ('const', 1):
+                    return True   # the Some payload of start.checked_sub(1)
                 return k[0] == 'bin' and k[1].startswith('Sub') and k[2] == ('param', 'start') and k[3] == ('const', 1)
             # the entry before `start`, looked up directly: operators.get(start - 1) / operators[start - 1]
             if a[0] == 'field' and a[2] == '1' and any(is_call(x, '[T]::get', 'Vec::get', 'Index::index') and x[2][0] == ('field', ('param', 'self'), 'operators') and start_minus_1(x[2][1]) for x in walk(a)):
                 has_prev = True
             elif a[0] == 'field' and a[2] == '1' and any(is_call(x, 'Iterator::skip') for x in walk(a)):
                 sk = [x for x in walk(a) if is_call(x, 'Iterator::skip')][0]
-                k = sk[2][1]
-                k = k[1] if (k[0] == 'field' and k[2] == '0') else k
-                has_prev = k[0] == 'bin' and k[1].startswith('Sub') and k[2] == ('param', 'start') and k[3] == ('const', 1)
+                has_prev = start_minus_1(sk[2][1])
         ok_in = has_self and has_prev
     if not ok_in:
         problems.append('input shape is not {self.input_shape if start == 0, else the shape recorded with operator start-1}')
